@@ -27,6 +27,18 @@ written from the statement):
     Per invocation: exactly one span event iff the filter passed (zero otherwise), tagged with the
     invocation id, with `lvl` / `err` as the exit path dictates (panic adds `err` + the panic level),
     kind = span, a range extent and trace / span ids.
+
+Extents: with a reading at start and one at completion the extent must be exactly that range, for
+guards and for every macro form. With an INTERMITTENT clock (scripted often: a reading at start but
+none at completion, or the other way round) no extent is accepted, and an extent that is there all
+the same - a point, or anything built from one reading - is a violation wherever the documented
+anchor applies (`Timer::extent` returns `None` when the clock has no reading): guard programs and
+macro forms that complete through `completion::Default` (drop, plain `#[span]`, panic, explicit
+`complete()`). NOT judged: the Result-aware completions (`ok_lvl` / `err_lvl` / `err`). On the
+unchanged tree they were observed to emit a POINT extent from a third reading taken at emission
+(they pass the runtime's clock to `emit_core::emit`, which fills in a missing extent); the
+statement only speaks about the case where the clock provides its readings, so this is counted
+(`macro:result-completion-extent-with-missing-reading:point|none`) and left alone.
 */
 
 #![cfg_attr(miri, feature(stmt_expr_attributes, proc_macro_hygiene))]
@@ -194,9 +206,32 @@ fn gen_program(g: &mut Rng) -> Program {
         name0,
         props0: g.usize(n_sets),
         completion0: g.usize(N_COMPLETIONS),
-        ops,
+        ops: intermittent(g, ops),
         prop_sets,
     }
+}
+
+/// Half of the programs get an INTERMITTENT clock on purpose: a reading at the first `start` but
+/// none at the terminal operation, or none at the first `start` but one at the terminal operation.
+fn intermittent(g: &mut Rng, mut ops: Vec<(Tick, Op)>) -> Vec<(Tick, Op)> {
+    let shape = g.below(4);
+    if shape >= 2 {
+        return ops;
+    }
+    let last = ops.len() - 1;
+    let first_start = ops.iter().position(|(_, o)| *o == Op::Start);
+    // (without a start there is no start reading to lose; leave the script alone)
+    if let Some(st) = first_start {
+        let available = |g: &mut Rng| Tick::Forward(1 + g.below(1_000_000));
+        if shape == 0 {
+            ops[st].0 = Tick::Unavailable;
+            ops[last].0 = available(g);
+        } else {
+            ops[st].0 = available(g);
+            ops[last].0 = Tick::Unavailable;
+        }
+    }
+    ops
 }
 
 fn program_json(p: &Program) -> Json {
@@ -586,7 +621,28 @@ fn check_program(r: &mut Report, p: &Program, seed: u64, index: u64) {
                         );
                     }
                 } else {
-                    r.observe("extents-unconstrained-clock-unavailable", 1);
+                    // a reading is missing: no extent is fine (`Timer::extent` documents `None`), but an
+                    // extent that IS there cannot be "from the reading at start to the reading at
+                    // completion" - it was made up from one reading (or none)
+                    let which = match (start_reading, end_reading) {
+                        (None, Some(_)) => "start-missing",
+                        (Some(_), None) => "end-missing",
+                        _ => "start-and-end-missing",
+                    };
+                    if which != "start-and-end-missing" {
+                        r.observe("guard:intermittent-clock-cases-judged", 1);
+                    }
+                    r.observe(&format!("guard:extent-judged-with-{}", which), 1);
+                    if cap.extent.is_some() {
+                        r.violation(
+                            &format!("C05:guard:completed-span:extent-from-missing-reading:{}", which),
+                            &format!(
+                                "the clock gave {:?} at start and {:?} at completion, yet the completed span carries the extent {:?} (on {})",
+                                start_reading, end_reading, cap.extent, COMPLETION_NAMES[call.by]
+                            ),
+                            case(),
+                        );
+                    }
                 }
                 if call.by == 2 && p.in_frame {
                     // the real default completion, inside the frame: ids of the guard
@@ -649,19 +705,72 @@ fn check_program(r: &mut Report, p: &Program, seed: u64, index: u64) {
 // (b) macro forms
 // ===========================================================================
 
-type Rt = Runtime<Recorder, filter::FromFn, ThreadLocalCtxt, FakeClock, CountingRng>;
+type Rt = Runtime<Recorder, filter::FromFn, ThreadLocalCtxt, ScriptClock, CountingRng>;
+
+/// How the clock of a macro-form invocation behaves, read by read (1st read = `start`, 2nd = the
+/// timer's reading at completion, later ones = whoever else asks).
+#[derive(Clone, Copy, Debug, PartialEq, Eq, Hash)]
+enum ClockMode {
+    Steady,
+    /// no reading at start, readings afterwards
+    StartMissing,
+    /// a reading at start, none from then on
+    EndMissing,
+    /// a reading at start, none at completion, readings again afterwards
+    EndMissingThenBack,
+    Never,
+}
+
+const CLOCK_MODES: [ClockMode; 5] = [
+    ClockMode::Steady,
+    ClockMode::StartMissing,
+    ClockMode::EndMissing,
+    ClockMode::EndMissingThenBack,
+    ClockMode::Never,
+];
+
+/// A clock that follows a `ClockMode` and remembers every reading it handed out.
+#[derive(Clone)]
+struct ScriptClock {
+    mode: ClockMode,
+    inner: FakeClock,
+    log: std::sync::Arc<std::sync::Mutex<Vec<Option<u64>>>>,
+}
+
+impl emit::Clock for ScriptClock {
+    fn now(&self) -> Option<emit::Timestamp> {
+        let mut log = self.log.lock().unwrap();
+        let k = log.len();
+        let available = match self.mode {
+            ClockMode::Steady => true,
+            ClockMode::StartMissing => k != 0,
+            ClockMode::EndMissing => k == 0,
+            ClockMode::EndMissingThenBack => k != 1,
+            ClockMode::Never => false,
+        };
+        let reading = if available { self.inner.now() } else { None };
+        log.push(reading.as_ref().map(vcommon::rec::nanos_of));
+        reading
+    }
+}
 
 fn en_filter(evt: emit::Event<&dyn ErasedProps>) -> bool {
     evt.props().pull::<bool, _>("en") != Some(false)
 }
 
-fn new_rt() -> (Rt, Recorder) {
+fn new_rt(mode: ClockMode) -> (Rt, Recorder, ScriptClock) {
     let rec = Recorder::new();
-    let clock = FakeClock::new(1_700_000_000_000_000_000);
-    clock.set_step(1_000);
+    let inner = FakeClock::new(1_700_000_000_000_000_000);
+    inner.set_step(1_000);
+    let clock = ScriptClock {
+        mode,
+        inner,
+        log: Default::default(),
+    };
     (
-        Runtime::build(rec.clone(), filter::FromFn::new(en_filter), ThreadLocalCtxt::shared(), clock, CountingRng::new()),
+        Runtime::build(rec.clone(), filter::FromFn::new(en_filter), ThreadLocalCtxt::shared(), clock.clone(), CountingRng::new()),
         rec,
+        clock,
     )
 }
 
@@ -1091,9 +1200,9 @@ fn forms() -> Vec<Form> {
     ]
 }
 
-fn check_invocation(r: &mut Report, f: &Form, exit: Exit, en: bool, inv: u32) {
+fn check_invocation(r: &mut Report, f: &Form, exit: Exit, en: bool, mode: ClockMode, inv: u32) {
     r.eval();
-    let (rt, rec) = new_rt();
+    let (rt, rec, clock) = new_rt(mode);
     CUSTOM.with(|c| c.borrow_mut().clear());
     RETURNED.with(|c| c.borrow_mut().clear());
     let outcome = (f.run)(&rt, inv, en, exit);
@@ -1101,14 +1210,16 @@ fn check_invocation(r: &mut Report, f: &Form, exit: Exit, en: bool, inv: u32) {
     let custom_calls = CUSTOM.with(|c| std::mem::take(&mut *c.borrow_mut()));
     let returned = RETURNED.with(|c| std::mem::take(&mut *c.borrow_mut()));
     let case = || {
-        json!({"part": "macro", "form": f.name, "exit": format!("{:?}", exit), "enabled": en, "invocation": inv,
+        json!({"part": "macro", "form": f.name, "exit": format!("{:?}", exit), "enabled": en, "clock": format!("{:?}", mode), "invocation": inv,
+               "clock_readings": clock.log.lock().unwrap().clone(),
                "events": events.iter().map(|e| e.to_json()).collect::<Vec<_>>()})
     };
     let sig_tail = format!("{}:{:?}", f.name, exit);
     r.observe(&format!("invocations:{}", if en { "enabled" } else { "disabled" }), 1);
     r.observe(&format!("exit:{:?}", exit), 1);
     r.observe("span-events", events.len() as u64);
-    r.nontrivial(&("macro", f.name, format!("{:?}", exit), en));
+    r.nontrivial(&("macro", f.name, format!("{:?}", exit), en, mode));
+    r.observe(&format!("clock:{:?}", mode), 1);
 
     // did the body leave the way it was asked to?
     let panicked = outcome.is_err();
@@ -1208,9 +1319,64 @@ fn check_invocation(r: &mut Report, f: &Form, exit: Exit, en: bool, inv: u32) {
     if exit == Exit::GRename && e.get("extra") != Some("1") {
         wrong.push(format!("extra={:?} (set through with_props)", e.get("extra")));
     }
-    match e.extent {
-        Some((Some(s), end)) if s <= end => {}
-        other => wrong.push(format!("extent={:?} (expected a range from the start reading to the completion reading)", other)),
+    // the extent: 1st reading = taken at start, 2nd = taken by the timer at completion
+    let readings = clock.log.lock().unwrap().clone();
+    let start_reading = readings.first().copied().flatten();
+    let end_reading = readings.get(1).copied().flatten();
+    match (start_reading, end_reading) {
+        (Some(s), Some(end)) => {
+            r.observe("macro:extents-checked", 1);
+            if e.extent != Some((Some(s), end)) {
+                wrong.push(format!("extent={:?} (expected the range {}..{}: reading at start .. reading at completion)", e.extent, s, end));
+            }
+        }
+        (s, end) => {
+            // a reading is missing: no extent is fine, an extent made up from something else is not
+            let which = match (s, end) {
+                (None, Some(_)) => "start-missing",
+                (Some(_), None) => "end-missing",
+                _ => "start-and-end-missing",
+            };
+            // The documented anchor (`Timer::extent` returns `None` without a reading) covers what
+            // completes through `completion::Default`: drop, plain `#[span]`, panic, `complete()`.
+            // The Result-aware completions (`ok_lvl` / `err_lvl` / `err`) hand the event to
+            // `emit_core::emit` together with the runtime's clock, which then fills in a POINT extent
+            // from a third reading taken at emission; the statement does not settle that, so it is
+            // only counted, not judged.
+            if f.result_aware && exit != Exit::Panic {
+                r.observe(
+                    &format!(
+                        "macro:result-completion-extent-with-missing-reading:{}",
+                        match e.extent {
+                            None => "none",
+                            Some((None, _)) => "point",
+                            Some((Some(_), _)) => "range",
+                        }
+                    ),
+                    1,
+                );
+            } else {
+            if which != "start-and-end-missing" {
+                r.observe("macro:intermittent-clock-cases-judged", 1);
+            }
+            r.observe(&format!("macro:extent-judged-with-{}", which), 1);
+            if e.extent.is_some() {
+                let completed_by = if exit == Exit::Panic {
+                    "default-completion-while-panicking"
+                } else {
+                    "default-completion"
+                };
+                r.violation(
+                    &format!("C05:macro:completed-span:extent-from-missing-reading:{}:{}", which, completed_by),
+                    &format!(
+                        "{} / {:?}: the clock's readings were {:?} (1st = at start, 2nd = at completion), yet the span event carries the extent {:?}",
+                        f.name, exit, readings, e.extent
+                    ),
+                    case(),
+                );
+            }
+            }
+        }
     }
     if e.get("trace_id").map(|t| t.len()) != Some(32) || e.get("span_id").map(|t| t.len()) != Some(16) {
         wrong.push(format!("trace_id={:?} span_id={:?}", e.get("trace_id"), e.get("span_id")));
@@ -1242,8 +1408,13 @@ fn main() {
                 if f.name == name {
                     for e in f.exits {
                         if format!("{:?}", e) == exit {
-                            check_invocation(&mut r, &f, *e, en, 1);
-                            check_invocation(&mut r, &f, *e, en, 2);
+                            let want = case.get("clock").and_then(|v| v.as_str()).map(|s| s.to_string());
+                            for m in CLOCK_MODES {
+                                if want.is_none() || want.as_deref() == Some(&format!("{:?}", m)) {
+                                    check_invocation(&mut r, &f, *e, en, m, 1);
+                                    check_invocation(&mut r, &f, *e, en, m, 2);
+                                }
+                            }
                         }
                     }
                 }
@@ -1272,14 +1443,17 @@ fn main() {
 
     // (b) macro forms: every form x exit path x enabled, a few rounds (ids / clocks differ per round)
     let all = forms();
-    let mut jobs: Vec<(usize, Exit, bool)> = Vec::new();
+    let mut jobs: Vec<(usize, Exit, bool, ClockMode)> = Vec::new();
     for (fi, f) in all.iter().enumerate() {
         for e in f.exits {
-            jobs.push((fi, *e, true));
-            jobs.push((fi, *e, false));
+            for m in CLOCK_MODES {
+                jobs.push((fi, *e, true, m));
+            }
+            jobs.push((fi, *e, false, ClockMode::Steady));
+            jobs.push((fi, *e, false, ClockMode::StartMissing));
         }
     }
-    let rounds = if cfg!(miri) { 1 } else { args.n(10, 100) };
+    let rounds = if cfg!(miri) { 1 } else { args.n(6, 60) };
     let total = jobs.len() as u64 * rounds;
     par_cases(&mut r, &args, total, |i, r| {
         // under Miri (a third of a second per invocation) every run takes a third of the sites,
@@ -1287,8 +1461,8 @@ fn main() {
         if cfg!(miri) && (i + seed) % 3 != 0 {
             return;
         }
-        let (fi, exit, en) = jobs[(i % jobs.len() as u64) as usize];
-        check_invocation(r, &all[fi], exit, en, i as u32 + 1);
+        let (fi, exit, en, mode) = jobs[(i % jobs.len() as u64) as usize];
+        check_invocation(r, &all[fi], exit, en, mode, i as u32 + 1);
     });
     r.set("macro_forms", json!(all.iter().map(|f| f.name).collect::<Vec<_>>()));
     r.set("macro_sites_exit_paths", json!(jobs.len()));
